@@ -245,7 +245,7 @@ class Gen:
                 exp.append((PREPROC, ln, len(line), "#"))
                 exp.append((PREPROC, ln, len(line) + 1 + len(sp), key))
                 line += "#" + sp + key
-                kinds.append("preproc")
+                kinds += ["preproc", "preproc"]
                 prev = Lx("word", key)
             n = r.choice([0, 1, 2, 3, 5, 8])
             for _ in range(n):
